@@ -1558,9 +1558,13 @@ Proof.
   destruct (o_create_node s i (rpath (cur0 ++ [c])) c _) as [s1 c1] eqn:Ecreate. cbn [fst] in Hinv1.
   apply ofind_some in Hf. destruct Hf as [Hfi Hfn].
   assert (Hilt : i < length (o_heap s)) by (eapply oget_some_lt; exact Hfn).
+  set (pm := match oget (o_heap s) i with Some n0 => on_meta n0 | None => {| m_mode := 0; m_uid := 0; m_gid := 0 |} end).
+  set (mode0 := N.lor (dir_mode (o_os s)) (N.ldiff (N.land perm (511 + MODE_STICKY)) (o_umask s))).
   set (nd := {| on_ch := []; on_data := []; on_nlink := 1; on_id := (o_last_id s + 1)%N;
-                on_meta := {| m_mode := N.lor (dir_mode (o_os s)) (N.ldiff (N.land perm (511 + MODE_STICKY)) (o_umask s));
-                              m_uid := us_uid (o_user s); m_gid := us_gid (o_user s) |} |}) in *.
+                on_meta := {| m_mode := if has (m_mode pm) MODE_SETGID && has mode0 MODE_DIR
+                                        then N.lor mode0 MODE_SETGID else mode0;
+                              m_uid := us_uid (o_user s);
+                              m_gid := if has (m_mode pm) MODE_SETGID then m_gid pm else us_gid (o_user s) |} |}) in *.
   assert (Es1 : o_index s1 = aset str_eqb (rpath (cur0 ++ [c])) (length (o_heap s)) (o_index s)
                 /\ o_heap s1 = o_add_child (o_heap s ++ [nd]) i c (length (o_heap s)) /\ c1 = length (o_heap s)).
   { unfold o_create_node in Ecreate. inversion Ecreate. cbn [o_index o_heap]. auto. }
@@ -1570,7 +1574,8 @@ Proof.
   - apply ofind_some. rewrite Eidx, Eheap, Ec1. split.
     + unfold ikey. apply al_aset_eq.
     + unfold o_add_child. rewrite (oget_app_some _ nd _ _ Hfn). rewrite oget_oupd_neq by lia. apply oget_app_new.
-  - unfold nd, on_dir. cbn [on_meta m_mode]. rewrite (inv_os _ Hinv). apply dir_mode_is_dir.
+  - unfold nd, on_dir, mode0. cbn [on_meta m_mode]. rewrite (inv_os _ Hinv).
+    match goal with |- context [if ?b then _ else _] => destruct b end; [rewrite <- N.lor_assoc|]; apply dir_mode_is_dir.
   - intros c2 r2 Er. rewrite Eidx.
     assert (Hg2 : gcs (c2 :: r2)) by (rewrite <- Er; exact Hr). inversion Hg2 as [|? ? Hc2 _]; subst.
     rewrite Fi_aset_neq.
